@@ -13,6 +13,7 @@ package main
 // Built with -race by the check for mode "mix" (race reports go to stderr, exit status 66).
 
 import (
+	"context"
 	"encoding/json"
 	"errors"
 	"fmt"
@@ -295,7 +296,7 @@ func concRounds(req concReq) int {
 // ---------------------------------------------------------------------------------------------
 // mix
 
-var mixOps = []string{"tokenize", "parse", "format", "extract", "scan", "lint", "suggest", "span", "metrics", "config"}
+var mixOps = []string{"tokenize", "parse", "parse_ctx", "parse_hold", "recovery", "format", "extract", "scan", "lint", "suggest", "span", "metrics", "config"}
 
 // per-goroutine memory of the "metrics" operation (element g is only touched by goroutine g)
 var lastSeenOps, lastSeenBytes []int64
@@ -355,6 +356,38 @@ func runOp(op string, sql string, gid int) (res string) {
 		h := strings.Join(astHashes(a), ",")
 		ast.ReleaseAST(a)
 		return h
+	case "parse_ctx":
+		a, err := gosqlx.ParseWithContext(context.Background(), sql)
+		if err != nil {
+			return "ERR " + infoOf(err).Code
+		}
+		h := strings.Join(astHashes(a), ",")
+		ast.ReleaseAST(a)
+		return h
+	case "parse_hold":
+		// two trees held at the same time must be two objects and must not change under each other
+		a, err := gosqlx.ParseWithContext(context.Background(), sql)
+		if err != nil {
+			return "ERR " + infoOf(err).Code
+		}
+		h1 := strings.Join(astHashes(a), ",")
+		b, err2 := gosqlx.Parse("SELECT held_probe FROM held_t WHERE x = 1")
+		h2 := strings.Join(astHashes(a), ",")
+		same := a == b
+		if err2 == nil {
+			ast.ReleaseAST(b)
+		}
+		ast.ReleaseAST(a)
+		if same {
+			return "SHARED-AST"
+		}
+		if h1 != h2 {
+			return "HELD-TREE-CHANGED"
+		}
+		return h1
+	case "recovery":
+		st, errs := gosqlx.ParseWithRecovery(sql)
+		return strings.Join(stmtHashes(st), ",") + fmt.Sprintf(" e%d", len(errs))
 	case "format":
 		out, err := gosqlx.Format(sql, gosqlx.DefaultFormatOptions())
 		if err != nil {
